@@ -573,7 +573,8 @@ def describe_internal(c, e, g):
         return 'text layer probe failed on %r: %r' % (c['q'], g)
     for k in ('clean', 'format', 'literals', 'format2', 'actions', 'details', 'combined', 'spec_literals'):
         if k in e and e.get(k) != g.get(k):
-            return 'text layer (%s) %s differs on query %r: model %r, implementation %r' % (c['lang'], k, c['q'], e.get(k), g.get(k))
+            who = 'generated literal texts (spec)' if k == 'spec_literals' else 'model'
+            return 'text layer (%s) %s differs on query %r: %s %r, implementation %r' % (c['lang'], k, c['q'], who, e.get(k), g.get(k))
     return 'text layer differs on %r' % c['q']
 
 
@@ -679,6 +680,26 @@ def run(ctx):
             internal[lang].append({'kind': 'internal', 'lang': lang, 'q': t, 'stream': 'soup'})
             ctx.nontriv((lang, t))
 
+    # ---- (i) metamorphic on the public path
+    for lang, _code in LANGS:
+        cs = public[lang]
+        got = lib.run_impl_py('c08', cs) if lang == 'py' else lib.run_impl_js('c08', cs, shards=12)
+        exp = []
+        canon_res = None
+        for c, g in zip(cs, got):
+            if c['is_canon']:
+                canon_res = g
+            exp.append({'canon': canon_res, 'lit_cols': c['lit_cols']})
+        ctx.compare(cs, exp, got, THEOREM + ' ; metamorphic: every spelling = canonical spelling, literals verbatim',
+                    rel=rel_query, describe=describe_query, corrupt=lambda e: {'canon': ['CANARY'], 'lit_cols': {}}, shrink=None)
+        ctx.count(len(cs))
+        for c, g in zip(cs, got):
+            if c['is_canon']:
+                ctx.stat('%s_public_%s' % (lang, 'error_' + g['error'] if isinstance(g, dict) and 'error' in g else 'ok'))
+                if c['lit_cols'] and isinstance(g, dict) and g.get('rows'):
+                    ctx.stat('%s_literal_reaches_output' % lang)
+        ctx.sample({'lang': lang, 'canonical': cs[0]['canon_q'], 'spelling': cs[1]['q'], 'result': got[1]})
+
     # ---- (ii) model tie
     mres = model_internal(internal)
     for lang, _code in LANGS:
@@ -708,26 +729,6 @@ def run(ctx):
                 ctx.stat('%s_with_literals' % lang)
         ctx.cross_check_vm(503, args, raw, n=40 if ctx.tier == 'quick' else 200)
         ctx.sample({'lang': lang, 'query': cs[1]['q'], 'model': dec[1]['actions'], 'implementation': got[1].get('actions') if isinstance(got[1], dict) else got[1]})
-
-    # ---- (i) metamorphic on the public path
-    for lang, _code in LANGS:
-        cs = public[lang]
-        got = lib.run_impl_py('c08', cs) if lang == 'py' else lib.run_impl_js('c08', cs, shards=12)
-        exp = []
-        canon_res = None
-        for c, g in zip(cs, got):
-            if c['is_canon']:
-                canon_res = g
-            exp.append({'canon': canon_res, 'lit_cols': c['lit_cols']})
-        ctx.compare(cs, exp, got, THEOREM + ' ; metamorphic: every spelling = canonical spelling, literals verbatim',
-                    rel=rel_query, describe=describe_query, corrupt=lambda e: {'canon': ['CANARY'], 'lit_cols': {}}, shrink=None)
-        ctx.count(len(cs))
-        for c, g in zip(cs, got):
-            if c['is_canon']:
-                ctx.stat('%s_public_%s' % (lang, 'error_' + g['error'] if isinstance(g, dict) and 'error' in g else 'ok'))
-                if c['lit_cols'] and isinstance(g, dict) and g.get('rows'):
-                    ctx.stat('%s_literal_reaches_output' % lang)
-        ctx.sample({'lang': lang, 'canonical': cs[0]['canon_q'], 'spelling': cs[1]['q'], 'result': got[1]})
 
     # ---- single-character classes: whitespace (strip / trim), (?i) folding, '.'
     for lang, code in LANGS:
